@@ -9,3 +9,5 @@ pub mod c14_route;
 pub mod c12_send;
 #[cfg(kani)]
 pub mod c12_chan;
+#[cfg(kani)]
+pub mod c13_anyvalue;
